@@ -212,7 +212,6 @@ theorem checkProgM_sound (p : Prog) (henv : EnvPlain (mkEnv p)) (hc : p.decls.al
 
 end RotoV.TcInfer
 
-
 namespace RotoV.TcInfer
 open RotoV.Typing RotoV.Unify RotoV.Gen
 
@@ -282,7 +281,7 @@ theorem envPlain_of_progPlain (p : Prog) (h : progPlain p = true) : EnvPlain (mk
       exact h _ hd
     | fn _ _ _ _ => simp at he
     | const _ _ _ => simp at he
-  · intro n vs k tys hl hk
+  · intro n vs hl v hv
     have hm := lookup_mem' hl
     simp only [mkEnv, List.mem_filterMap] at hm
     obtain ⟨d, hd, he⟩ := hm
@@ -293,7 +292,7 @@ theorem envPlain_of_progPlain (p : Prog) (h : progPlain p = true) : EnvPlain (mk
       have := h _ hd
       simp only at this
       rw [List.all_eq_true] at this
-      exact this _ (lookup_mem' hk)
+      exact this v hv
     | fn _ _ _ _ => simp at he
     | const _ _ _ => simp at he
 
